@@ -44,6 +44,11 @@ type relay struct {
 	victim  string
 	stale   int    // a queued packet no longer had the bytes it had when it was sent
 	faults  int    // a queued reply could not be read any more (its memory was unmapped)
+	// forwarder-like duplicate suppression (what any NDN forwarder on the path does: pending-entry nonce check and dead
+	// nonce list): an Interest whose (name, nonce) was seen within the last 6 s of virtual time is dropped
+	forwarder bool
+	seenNonce map[string]time.Time
+	nonceDrops int
 	// send-fault injection (mode "sendfault"): the consumer's face refuses to send chosen Interests (Send returns an error)
 	sfTarget int // 0 metadata Interest, 1 first segment, 2 a mid-stream segment
 	sfBudget int // number of refusals left (huge = permanent)
@@ -108,6 +113,19 @@ func (f *relayFace) Send(pkt enc.Wire) error {
 			rl.sendErrs++
 			rl.mu.Unlock()
 			return fmt.Errorf("write unix: broken pipe")
+		}
+	}
+	if rl.forwarder && kind == "I" {
+		pkt, _, err := spec.ReadPacket(enc.NewBufferReader(b))
+		if err == nil && pkt.Interest != nil && pkt.Interest.Nonce() != nil {
+			k := fmt.Sprintf("%s#%d", key, *pkt.Interest.Nonce())
+			now := time.Now() // virtual
+			if t0, ok := rl.seenNonce[k]; ok && now.Sub(t0) < 6*time.Second {
+				rl.nonceDrops++
+				rl.mu.Unlock()
+				return nil // looped / duplicate Interest: silently dropped, exactly like a forwarder
+			}
+			rl.seenNonce[k] = now
 		}
 	}
 	var delays []time.Duration
@@ -350,6 +368,9 @@ func runE2ECase(t *testing.T, o *out, r *rand.Rand) {
 		}
 		rl.drops = map[string]int{}
 		rl.dropped, rl.late, rl.dups, rl.victim = 0, 0, 0, ""
+		rl.forwarder = r.Intn(2) == 0
+		rl.seenNonce = map[string]time.Time{}
+		rl.nonceDrops = 0
 		mode := rl.mode
 		rl.mu.Unlock()
 
@@ -404,6 +425,10 @@ func runE2ECase(t *testing.T, o *out, r *rand.Rand) {
 		case <-time.After(30 * time.Minute): // virtual time
 		}
 		rl.mu.Lock()
+		if rl.nonceDrops > 0 {
+			o.pf("BAD relay: %d retransmitted Interests carried a (name, nonce) already seen within 6 s: a forwarder on the path drops them as duplicates\n", rl.nonceDrops)
+			rl.nonceDrops = 0
+		}
 		if rl.stale > 0 {
 			o.pf("BAD relay: %d queued packets had changed between Send and delivery (the sender's buffer was overwritten)\n", rl.stale)
 			rl.stale = 0
